@@ -190,8 +190,18 @@ func runCfgOps(ops []string) []string {
 			}
 			var o absnfs.ExportOptions
 			setPolicy(&o, f[2:9])
-			err := n.UpdatePolicyOptions(absnfs.PolicyOptions{ReadOnly: o.ReadOnly, Secure: o.Secure, Squash: o.Squash, MaxFileSize: o.MaxFileSize,
-				EnableRateLimiting: o.EnableRateLimiting, RateLimitConfig: o.RateLimitConfig, AllowedIPs: o.AllowedIPs})
+			err, hung := returnsInTime(func() error {
+				return n.UpdatePolicyOptions(absnfs.PolicyOptions{ReadOnly: o.ReadOnly, Secure: o.Secure, Squash: o.Squash, MaxFileSize: o.MaxFileSize,
+					EnableRateLimiting: o.EnableRateLimiting, RateLimitConfig: o.RateLimitConfig, AllowedIPs: o.AllowedIPs})
+			})
+			if hung {
+				out[i] = "hung"
+				for j := i + 1; j < len(ops); j++ {
+					out[j] = "skipped"
+				}
+				n = nil // its locks are in an unknown state: leave it alone
+				return out
+			}
 			if err != nil {
 				out[i] = "rejected"
 			} else {
@@ -207,7 +217,16 @@ func runCfgOps(ops []string) []string {
 			o.Timeouts = tmoOf(f[3])
 			setFlags(&o, f[4])
 			setPolicy(&o, f[5:12])
-			if err := n.UpdateExportOptions(o); err != nil {
+			err, hung := returnsInTime(func() error { return n.UpdateExportOptions(o) })
+			if hung {
+				out[i] = "hung"
+				for j := i + 1; j < len(ops); j++ {
+					out[j] = "skipped"
+				}
+				n = nil // its locks are in an unknown state: leave it alone
+				return out
+			}
+			if err != nil {
 				out[i] = "rejected"
 			} else {
 				out[i] = "ok"
@@ -268,6 +287,12 @@ func be32(b []byte) uint32 { return uint32(b[0])<<24 | uint32(b[1])<<16 | uint32
 
 // cfgOracle: positivity, serviceability, all-or-nothing, stated on the real outputs only.
 func cfgOracle(r *Result, ops, impl []string) {
+	for i, l := range impl {
+		if l == "hung" {
+			r.violate(Violation{Class: "C24/update-never-returned", What: "with no request in flight, " + strings.Fields(ops[i])[1] + " update did not return within 5 s (a lock an earlier, possibly rejected, update left held)", Ops: ops[:i+1]})
+			return
+		}
+	}
 	pre := func(i int) []string { return append([]string(nil), ops[:i+1]...) }
 	lastGet := ""
 	for i, op := range ops {
@@ -437,4 +462,17 @@ func checkC24(r *Result, rng *rand.Rand, thorough bool) {
 	impl = append(impl, im[:len(w)])
 	r.noteCase(strings.Join(w, ";"), true)
 	compareWithModel(r, "config", cases, impl, func(o []string) []string { return runCfgOps(o) })
+}
+
+// returnsInTime runs an update with nothing else going on: it has nothing to wait for, so not returning within
+// 5 seconds means it never will (a lock left held by an earlier call)
+func returnsInTime(fn func() error) (err error, hung bool) {
+	done := make(chan error, 1)
+	go func() { done <- fn() }()
+	select {
+	case err = <-done:
+		return err, false
+	case <-time.After(5 * time.Second):
+		return nil, true
+	}
 }
